@@ -8,6 +8,8 @@ from .api import CONTRACTS, CLASSDEFS
 from .engine import *  # noqa
 from .engine import Val, Unsupported, EngineError, fresh, I, B, S, R, NONE_VAL
 
+CONN_PREFIX = "sqlite3.Connection."
+
 MAX_INLINE_DEPTH = 12
 
 
@@ -520,11 +522,14 @@ class CallMixin:
             self.assume_ref_range(result, st)
         qenv = dict(penv)
         qenv["result"] = result
+        ghost_lists = []
         for gname, gty in c.get("ghost_returns", {}).items():
             gv = Val(parse_type(gty), fresh("g_" + gname, sort_of(parse_type(gty))))
             qenv[gname] = gv
             st.env["g_" + gname] = gv
             self.assume_ref_range(gv, st)
+            if gv.ty.name == "List":
+                ghost_lists.append(gv)
         # fields of objects allocated by the callee
         for wf in c.get("writes_fresh", []):
             if wf == "*":
@@ -532,8 +537,11 @@ class CallMixin:
                 for k3 in sorted(set(list(st.heap.keys()) + list(self.init_heap.keys()))):
                     arr3 = st.heap.get(k3, self.init_heap.get(k3))
                     self._havoc_fresh_key(k3, arr3.sort().range(), pre.alloc, st)
+                st.note_havoc("fresh", "", pre.alloc)
                 continue
             self.havoc_fresh_region(wf, pre.alloc, st)
+        for gv in ghost_lists:
+            st.assume(self.list_len(gv, st) >= 0)        # type invariant of a witness list
         # exceptional exits
         for exc in c["raises"]:
             conds = c["exc_ensures"].get(exc)
@@ -556,7 +564,13 @@ class CallMixin:
         for k_, e in enumerate(c["ensures"]):
             if k_ in c.get("internal_ensures", ()):
                 continue        # stated over the callee's own ghost state: not visible to callers
-            st.assume(self.spec_truth(e, qenv, st, old=pre))
+            g_ = self.spec_truth(e, qenv, st, old=pre)
+            if z3.is_false(z3.simplify(g_)) and not st.guards:
+                # a postcondition that is literally false in the caller's state makes everything after the call provable:
+                # never silently (an encoder / frame error until shown otherwise)
+                self.contradictions.append(f"postcondition #{k_} of {fi.qualname} is false in the state after the call "
+                                           f"(line {line}): {e[:120]}")
+            st.assume(g_)
         return result
 
     def fresh_key(self, key):
@@ -584,6 +598,7 @@ class CallMixin:
                 if k3.startswith(k2):
                     arr3 = st.heap.get(k3, self.init_heap.get(k3))
                     self._havoc_fresh_key(k3, arr3.sort().range(), alloc0, st)
+            st.note_havoc("fresh", k2, alloc0)
             return
         self._havoc_fresh_key(k2, sort, alloc0, st)
 
@@ -633,8 +648,10 @@ class CallMixin:
 
     def modifies_cells(self, mods, env, st):
         """Resolve the modifies patterns of a contract against the state `st` (the callee's pre-state):
-        ("heap",) | ("alloc",) | ("key", key) whole field array | ("cell", key, sort, ref, record) one cell
-        | ("prefix", prefix, ref) every field of one object of a class."""
+        ("heap",) | ("alloc",) | ("key", key, sort) whole field array | ("keyprefix", prefix) | ("cell", key, sort, ref, record)
+        one cell | ("prefix", prefix, ref) every field of one object.  Patterns: `p.f1...fn` (a cell reached through fields of
+        the parameter p), `p.f1...fn.*` (every cell of the object held there), `p.f1...fn[]` / `p[]`-like `p` (contents of the
+        dict / list held there), `Class.field`, `alloc`, `heap`."""
         out = []
         for m in mods:
             if m in ("alloc", "heap"):
@@ -643,62 +660,69 @@ class CallMixin:
             star = m.endswith(".*")
             contents = m.endswith("[]")
             node = ast.parse(m[:-2] if (star or contents) else m, mode="eval").body
-            if contents:
-                # param.field[] : the contents of the dict / list held in a field of the parameter
-                if not (isinstance(node, ast.Attribute) and isinstance(node.value, ast.Name) and node.value.id in env):
-                    raise EngineError(f"modifies pattern {m!r} not understood")
-                obj = env[node.value.id]
+            chain = []
+            base = node
+            while isinstance(base, ast.Attribute):
+                chain.append(base.attr)
+                base = base.value
+            chain.reverse()
+            if isinstance(base, ast.Name) and base.id in env:
+                obj = env[base.id]
                 if obj.ty.name == "Opt":
                     obj = Val(obj.ty.args[0], obj.t)
-                cls = obj.ty.args[0]
-                fty = self.field_type(cls, node.attr)
-                if fty is not None and fty.name == "Opt":
-                    fty = fty.args[0]
-                if fty is None or fty.name not in ("Dict", "List"):
-                    raise EngineError(f"modifies {m}: {node.attr} is not a dict or list field")
-                inner = st.read(f"{cls}.{node.attr}", I, obj.t)
-                if fty.name == "Dict":
-                    vty = fty.args[0] or JV
-                    out.append(("cell", self._map_key(vty), z3.ArraySort(S, opt_sort(sort_of(vty)).sort), inner, False))
+                if not chain:
+                    # the parameter itself: contents of a list / dict parameter
+                    if obj.ty.name == "List":
+                        out.append(("cell", "List.len", I, obj.t, False))
+                        if obj.ty.args[0] is not None:
+                            ety = obj.ty.args[0]
+                            out.append(("cell", self._items_key(ety), z3.ArraySort(I, sort_of(ety)), obj.t, False))
+                        continue
+                    if obj.ty.name == "Dict":
+                        vty = self.dict_vty(obj) or JV
+                        out.append(("cell", self._map_key(vty), z3.ArraySort(S, opt_sort(sort_of(vty)).sort), obj.t, False))
+                        continue
+                    raise EngineError(f"modifies pattern {m!r} not understood")
+                # walk to the object that owns the last field
+                ref, cls = obj.t, (obj.ty.args[0] if obj.ty.name == "Obj" else None)
+                walk = chain if (star or contents) else chain[:-1]
+                fty = None
+                for f in walk:
+                    if cls is None:
+                        raise EngineError(f"modifies {m}: {f} is not a field of an object")
+                    fty = self.field_type(cls, f)
+                    if fty is None:
+                        raise EngineError(f"modifies {m}: unknown field {f}")
+                    inner_ty = fty.args[0] if fty.name == "Opt" else fty
+                    ref = st.read(f"{cls}.{f}", I, ref)
+                    cls = inner_ty.args[0] if inner_ty.name == "Obj" else None
+                    fty = inner_ty
+                if star:
+                    if cls is None:
+                        raise EngineError(f"modifies {m}: not an object field")
+                    out.append(("prefix", cls + ".", ref))
+                    continue
+                if contents:
+                    if fty is None or fty.name not in ("Dict", "List"):
+                        raise EngineError(f"modifies {m}: not a dict or list field")
+                    if fty.name == "Dict":
+                        vty = fty.args[0] or JV
+                        out.append(("cell", self._map_key(vty), z3.ArraySort(S, opt_sort(sort_of(vty)).sort), ref, False))
+                    else:
+                        out.append(("cell", "List.len", I, ref, False))
+                        out.append(("cell", self._items_key(fty.args[0]), z3.ArraySort(I, sort_of(fty.args[0])), ref, False))
+                    continue
+                last = chain[-1]
+                if cls is None:
+                    raise EngineError(f"modifies {m}: {last} is not a field of an object")
+                lty = self.field_type(cls, last)
+                key = f"{cls}.{last}"
+                if lty is None:
+                    arr = st.heap.get(key, self.init_heap.get(key))
+                    srt = arr.sort().range() if arr is not None else I       # (ghost cells of modelled objects, e.g. conn.ncommits)
                 else:
-                    out.append(("cell", "List.len", I, inner, False))
-                    out.append(("cell", self._items_key(fty.args[0]), z3.ArraySort(I, sort_of(fty.args[0])), inner, False))
-                continue
-            if star:
-                # param.field.* : every cell of the object held in a field of the parameter (e.g. the tables of self.conn)
-                if not (isinstance(node, ast.Attribute) and isinstance(node.value, ast.Name) and node.value.id in env):
-                    raise EngineError(f"modifies pattern {m!r} not understood")
-                obj = env[node.value.id]
-                cls = obj.ty.args[0]
-                fty = self.field_type(cls, node.attr)
-                if fty is None or fty.name != "Obj":
-                    raise EngineError(f"modifies {m}: {node.attr} is not an object field")
-                inner = st.read(f"{cls}.{node.attr}", I, obj.t)
-                out.append(("prefix", fty.args[0] + ".", inner))
-                continue
-            if isinstance(node, ast.Attribute) and isinstance(node.value, ast.Attribute) and isinstance(node.value.value, ast.Name) \
-                    and node.value.value.id in env:
-                # param.field.sub : a cell of the object held in a field of the parameter (e.g. self.conn.committed)
-                obj = env[node.value.value.id]
-                cls = obj.ty.args[0]
-                fty = self.field_type(cls, node.value.attr)
-                if fty is None or fty.name != "Obj":
-                    raise EngineError(f"modifies {m}: {node.value.attr} is not an object field")
-                inner = st.read(f"{cls}.{node.value.attr}", I, obj.t)
-                key = f"{fty.args[0]}.{node.attr}"
-                arr = st.heap.get(key, self.init_heap.get(key))
-                srt = arr.sort().range() if arr is not None else I
-                out.append(("cell", key, srt, inner, False))
-                continue
-            if isinstance(node, ast.Attribute) and isinstance(node.value, ast.Name) and node.value.id in env:
-                obj = env[node.value.id]
-                if obj.ty.name == "Opt":
-                    obj = Val(obj.ty.args[0], obj.t)
-                cls = obj.ty.args[0]
-                fty = self.field_type(cls, node.attr)
-                if fty is None:
-                    raise EngineError(f"modifies {m}: unknown field")
-                out.append(("cell", f"{cls}.{node.attr}", sort_of(fty), obj.t, bool(CLASSDEFS.get(cls, {}).get("record"))))
+                    srt = sort_of(lty)
+                out.append(("cell", key, srt, ref, bool(CLASSDEFS.get(cls, {}).get("record"))))
                 continue
             if isinstance(node, ast.Attribute) and isinstance(node.value, ast.Name):
                 # Class.field: whole field array
@@ -716,25 +740,40 @@ class CallMixin:
                 if CLASSDEFS.get(cls, {}).get("record"):
                     out.append(("key", f"{cls}.{node.attr}!has", z3.ArraySort(I, B)))
                 continue
-            if isinstance(node, ast.Name) and node.id in env:
-                v = env[node.id]
-                if v.ty.name == "Opt":
-                    v = Val(v.ty.args[0], v.t)
-                if v.ty.name == "List":
-                    out.append(("cell", "List.len", I, v.t, False))
-                    if v.ty.args[0] is not None:
-                        ety = v.ty.args[0]
-                        out.append(("cell", self._items_key(ety), z3.ArraySort(I, sort_of(ety)), v.t, False))
-                    continue
-                if v.ty.name == "Dict":
-                    vty = self.dict_vty(v) or JV
-                    out.append(("cell", self._map_key(vty), z3.ArraySort(S, opt_sort(sort_of(vty)).sort), v.t, False))
-                    continue
             raise EngineError(f"modifies pattern {m!r} not understood")
         return out
 
+    def materialize_fields(self, prefix, st):
+        """Make every heap field an object of the class(es) under `prefix` can have exist in the state (fields are created
+        lazily; a frame that names `obj.*` or `heap` has to cover the ones not read yet as well)."""
+        known = []
+        if prefix in ("", CONN_PREFIX) and hasattr(self, "sqlite_keys"):
+            try:
+                known.extend(self.sqlite_keys())
+            except Unsupported:
+                pass
+        for cls, cd in CLASSDEFS.items():
+            if (cls + ".").startswith(prefix) or prefix == "":
+                for f, fty in cd["fields"].items():
+                    known.append((f"{cls}.{f}", sort_of(parse_type(fty))))
+                    if cd.get("record"):
+                        known.append((f"{cls}.{f}!has", B))
+        for (cls, f), fty in getattr(self, "dyn_fields", {}).items():
+            if (cls + ".").startswith(prefix) or prefix == "":
+                known.append((f"{cls}.{f}", sort_of(fty)))
+        for key, srt in known:
+            if key.startswith(prefix) or prefix == "":
+                try:
+                    st.field(key, srt)
+                except Exception:
+                    pass
+
     def havoc_modifies(self, mods, env, st):
         for cell in self.modifies_cells(mods, env, st):
+            if cell[0] == "prefix":
+                self.materialize_fields(cell[1], st)
+            elif cell[0] == "heap":
+                self.materialize_fields("", st)
             kind = cell[0]
             if kind == "alloc":
                 st.new_epoch_at_least(st.alloc)
@@ -742,6 +781,7 @@ class CallMixin:
                 for k in list(st.heap.keys()) + list(self.init_heap.keys()):
                     arr = st.heap.get(k, self.init_heap.get(k))
                     st.set_field_array(k, fresh("hv_" + k, arr.sort()))
+                st.note_havoc("all", "")
                 st.new_epoch_at_least(st.alloc)
             elif kind == "key":
                 st.set_field_array(cell[1], fresh("hv_" + cell[1].rsplit(".", 1)[-1], cell[2]))
@@ -750,11 +790,13 @@ class CallMixin:
                     if k.startswith(cell[1]):
                         arr = st.heap.get(k, self.init_heap.get(k))
                         st.set_field_array(k, fresh("hv_" + k.rsplit(".", 1)[-1], arr.sort()))
+                st.note_havoc("all", cell[1])
             elif kind == "prefix":
                 for k in sorted(set(list(st.heap.keys()) + list(self.init_heap.keys()))):
                     if k.startswith(cell[1]):
                         arr = st.heap.get(k, self.init_heap.get(k))
                         st.write(k, arr.sort().range(), cell[2], fresh("hv_" + k.rsplit(".", 1)[-1], arr.sort().range()))
+                st.note_havoc("at", cell[1], cell[2])
             else:
                 _, key, srt, ref, record = cell
                 st.write(key, srt, ref, fresh("hv_" + key.rsplit(".", 1)[-1], srt))
